@@ -271,7 +271,7 @@ def forward_may(g: CFG, init: frozenset, transfer) -> dict[int, frozenset]:
     return IN
 
 
-def path_conditions(g: CFG, start: CNode, target: CNode, limit: int = 4000) -> list[list[tuple[ast.AST, object]]]:
+def path_conditions(g: CFG, start: CNode, target: CNode, limit: int = 4000, with_nodes: bool = False) -> list:
     """all acyclic paths start -> target as lists of (test expression, branch label) for the test / for / match nodes on the path
     (exceptional edges are not followed).  Used to read *under which conditions* a statement executes, independently of how the
     guards are nested (guard clauses with continue/return vs if/else)."""
@@ -284,7 +284,7 @@ def path_conditions(g: CFG, start: CNode, target: CNode, limit: int = 4000) -> l
         if steps > limit:
             raise AnalysisError("too many paths")
         if n is target:
-            out.append(conds)
+            out.append((conds, seen) if with_nodes else conds)
             continue
         for s, lab in n.succ:
             if lab == "exc" or s.id in seen:
